@@ -33,7 +33,7 @@ class Contract:
     def __init__(self, file, qualname, props=(), params=None, requires=(), ensures=None, exsures=None,
                  modifies=(), returns=None, loops=None, calls=None, inline=(), globals=None, setup=None,
                  ghost=None, generator=False, closes=False, assumed=False, note="", old=(), locks=None,
-                 cases=None, at_exit=None, exc_kinds=None, variant=""):
+                 cases=None, at_exit=None, exc_kinds=None, variant="", ensures_body=None):
         self.file, self.qualname, self.props = file, qualname, tuple(props)
         self.params = dict(params or {})
         self.requires = list(requires)
@@ -56,6 +56,8 @@ class Contract:
         self.at_exit = at_exit
         self.exc_kinds = exc_kinds or {}
         self.variant = variant
+        # clauses about the execution trace of the body itself: checked on the body, not assumed at call sites
+        self.ensures_body = dict(ensures_body or {})
 
     @property
     def name(self):
